@@ -1,20 +1,20 @@
 \* MCCore.tla
 SPECIFICATION Spec
 CONSTANTS
-  NSlot = 2
+  NSlot = 3
   NMock = 1
-  NSeq = 1
+  NSeq = 2
   NObj = 1
   NMon = 1
   NTr = 1
   AsIs_D1 = FALSE
   AsIs_D4 = FALSE
-  MShapes = {5}
-  MArgs = {0, 1}
-  MTermIds = {2, 3}
-  MBoundIds = {2, 3, 5}
+  MShapes = {5, 7}
+  MArgs = {0}
+  MTermIds = {1}
+  MBoundIds = {1, 2, 3, 5, 6}
   MFns = {1}
-  MaxCreate = 2
+  MaxCreate = 3
   MaxN = 3
   UseMove = FALSE
   UseDestroyMock = FALSE
